@@ -195,6 +195,65 @@ def parse_jv(text):
     return v
 
 
+def parse_pytext(text):
+    """Coq show_py text (after R:) -> Python value; used to compare reader results as values (dicts as maps)"""
+    pos = [0]
+    num = re.compile(r"-?\d+")
+    hx = re.compile(r"[0-9a-f]*")
+
+    def val():
+        c = text[pos[0]]
+        pos[0] += 1
+        if c == "N":
+            return None
+        if c in "TF":
+            return c == "T"
+        if c in "ID":
+            m = num.match(text, pos[0])
+            pos[0] = m.end()
+            return int(m.group(0)) if c == "I" else G.bits_to_float(int(m.group(0)))
+        if c in "SBA":
+            m = hx.match(text, pos[0])
+            pos[0] = m.end()
+            b = bytes.fromhex(m.group(0))
+            return b.decode("utf-8") if c == "S" else b
+        if c in "[(":
+            out = []
+            while text[pos[0]] not in "])":
+                out.append(val())
+                pos[0] += 1                      # ','
+            pos[0] += 1
+            return out
+        if c == "{":
+            out = {}
+            while text[pos[0]] != "}":
+                kk = val()
+                pos[0] += 1                      # ':'
+                out[kk] = val()
+                pos[0] += 1                      # ','
+            pos[0] += 1
+            return out
+        raise ValueError("bad value text at %d: %r" % (pos[0], text[:80]))
+
+    v = val()
+    assert pos[0] == len(text), text
+    return v
+
+
+def parse_pytext_safe(t):
+    try:
+        return parse_pytext(t)
+    except Exception:
+        return ("unparsable", t)
+
+
+def model_value(rtext):
+    """'R:<show_py>' -> (True, value) ; anything else -> (False, None)"""
+    if rtext and rtext.startswith("R:") and "?" not in rtext:
+        return True, parse_pytext(rtext[2:])
+    return False, None
+
+
 def jv_to_coq(j):
     if j is None:
         return "JvNull"
@@ -318,9 +377,9 @@ def value_equiv(v, out, s, named, convert=True):
         return isinstance(out, list) and isinstance(v, (list, tuple, bytes, bytearray)) and len(out) == len(v) and all(
             value_equiv(a, b, s["items"], named, convert) for a, b in zip(v, out))
     if t == "map":
-        return isinstance(out, dict) and list(out) == list(v) and all(value_equiv(v[k], out[k], s["values"], named, convert) for k in v)
+        return isinstance(out, dict) and set(out) == set(v) and all(value_equiv(v[k], out[k], s["values"], named, convert) for k in v)
     if t in ("record", "error"):
-        if not isinstance(out, dict) or list(out) != [f["name"] for f in s["fields"]]:
+        if not isinstance(out, dict) or set(out) != set(f["name"] for f in s["fields"]):
             return False
         return all(value_equiv(v[f["name"]] if f["name"] in v else f.get("default"), out[f["name"]], f["type"], named, convert)
                    for f in s["fields"])
@@ -743,6 +802,8 @@ def fixed_families(rng):
                                      ("w", ["string", "null"], {"default": "dd"}), ("x", arr(["null", "int"]), {"default": []}),
                                      ("y", "int")]), None))
     F.append(("defaults", arr(rec("D3", [("a", "int", {"default": 1}), ("r", ["null", "D3"], {"default": None})])), None))
+    F.append(("defaults", rec("D4", [("j", rec("DJ", [("p", "int"), ("u", ["int", "null"])]), {"default": {"p": 3, "u": 4}}),
+                                     ("l", arr(["null", "int"]), {"default": [None]}), ("n", "null", {"default": None}), ("z", "int")]), None))
     return F
 
 
@@ -854,7 +915,7 @@ def expr_json(c, r):
 def run_model(ctx, exprs, tag):
     """evaluate in Coq; expressions are dealt to the shards by size so that the shards take about equally long"""
     order = sorted(range(len(exprs)), key=lambda i: -len(exprs[i]))
-    nsh = max(1, min(16, (len(exprs) + 39) // 40))
+    nsh = max(1, min(16, (len(exprs) + 39) // 40), (len(exprs) + 599) // 600)
     per = (len(exprs) + nsh - 1) // nsh if exprs else 1
     dealt = [[] for _ in range(nsh)]
     for k, i in enumerate(order):
@@ -1000,7 +1061,8 @@ def check_case(ctx, c, ms, stats):
         for r, out, wv in zip(c.records, outs, want):
             got = "R:" + show_val(out)
             holds = value_equiv(r, out, c.parsed, c.named)
-            if got == wv and holds:
+            mok, mval = model_value(wv)
+            if holds and mok and same_by_value(out, mval):
                 continue
             m = mk_like(c, [r])
             if not holds:
@@ -1171,7 +1233,7 @@ def defaults_outcome(c, doc, done):
     doc2 = apply_deletions(doc, done)
     full = impl_json_read(fresh(c)[0], json.dumps(doc))
     if full[0] != "ok" or len(full[1]) != 1:
-        return ("unreadable", None, None, None, doc2)
+        return ("unreadable", None, None, None, doc2, None)
     rd = impl_json_read(fresh(c)[0], json.dumps(doc2))
     expect = json_clone(full[1][0])
     for path, f in sorted(done, key=lambda pf: len(pf[0])):
@@ -1180,8 +1242,8 @@ def defaults_outcome(c, doc, done):
             o = o[p]
         o[f["name"]] = default_py(f["default"], f["type"], named)
     if rd[0] != "ok" or len(rd[1]) != 1:
-        return ("raised", rd[1] if rd[0] != "ok" else "record-count-differs", show_val(expect), False, doc2)
-    return ("ok", "R:" + show_val(rd[1][0]), "R:" + show_val(expect), same_by_value(rd[1][0], expect), doc2)
+        return ("raised", rd[1] if rd[0] != "ok" else "record-count-differs", show_val(expect), False, doc2, None)
+    return ("ok", "R:" + show_val(rd[1][0]), "R:" + show_val(expect), same_by_value(rd[1][0], expect), doc2, rd[1][0])
 
 
 def check_defaults(ctx, cases, model_by_case, stats):
@@ -1214,7 +1276,7 @@ def check_defaults(ctx, cases, model_by_case, stats):
     outs = run_model(ctx, exprs, "c15d")
     twice = 0
     for (c, r, doc, done), mo in zip(jobs, outs):
-        st, got, expect, holds, doc2 = defaults_outcome(c, doc, done)
+        st, got, expect, holds, doc2, val = defaults_outcome(c, doc, done)
         if st == "unreadable":
             stats["defaults_skipped_document_unreadable"] = stats.get("defaults_skipped_document_unreadable", 0) + 1
             continue                                        # reported by corr:json-read
@@ -1224,7 +1286,7 @@ def check_defaults(ctx, cases, model_by_case, stats):
             # minimise to a single deletion showing the same symptom
             one = done
             for d in done:
-                st1, got1, exp1, holds1, doc21 = defaults_outcome(c, doc, [d])
+                st1, got1, exp1, holds1, doc21, _ = defaults_outcome(c, doc, [d])
                 if not holds1 and (st1, got1 if st1 == "raised" else None) == (st, got if st == "raised" else None):
                     one, got, expect, doc2 = [d], got1, exp1, doc21
                     break
@@ -1235,7 +1297,8 @@ def check_defaults(ctx, cases, model_by_case, stats):
                           signature="C15:json_reader:%s:%s" % (feat, got if st == "raised" else "value-is-not-the-default"),
                           found_input=True, detail="json_reader must return the schema default for an absent key; expected " + str(expect)[:600])
             continue
-        if mo is None or by_value(mo) != got:
+        mok, mval = model_value(mo)
+        if not (mok and same_by_value(val, mval)):
             case = dict(c.to_json(), records_repr=repr([r]), document=json.dumps(doc2)[:1500],
                         deleted=[[list(map(str, p)), f["name"]] for p, f in done])
             ctx.violation("corr:json-defaults", case, impl=str(got)[:1500], model=(mo or "")[:1500], signature="C15:model-differs:json-defaults",
@@ -1282,7 +1345,7 @@ def json_clone(v):
 
 
 def run(ctx):
-    n = int(os.environ.get("C15_N", "0")) or (900 if ctx.quick() else 14000)
+    n = int(os.environ.get("C15_N", "0")) or (3000 if ctx.quick() else 60000)
     cases = gen_cases(ctx, n)
     exprs, owner = [], []
     for c in cases:
@@ -1314,17 +1377,20 @@ def run(ctx):
 def replay(ctx, rep):
     case = rep["case"]
     c = JCase.from_json(case)
+    if rep.get("name", "").startswith("corr:json-defaults") and "deleted" in case:
+        doc = parse_jv(split_model(run_model(ctx, [expr_json(c, c.records[0])], "rp")[0])[0])
+        parsed, named = fresh(c)
+        dels = deletions(ctx.rng, doc, parsed, named)
+        done = [(p, f) for p, f in dels if [list(map(str, p)), f["name"]] in case["deleted"]]
+        st, got, expect, holds, doc2, _ = defaults_outcome(c, doc, done)
+        t = json.dumps(doc2)
+        rd2 = impl_json_read(fresh(c)[0], t + "\n" + t)
+        twice = rd2[0] == "ok" and len(rd2[1]) == 2 and same_by_value(rd2[1][0], rd2[1][1])
+        print("document      :", t[:500]); print("implementation:", str(got)[:500]); print("expected      :", str(expect)[:500])
+        print("same document twice gives equal records:", twice)
+        return bool(holds) and twice
     ms = [split_model(m) for m in run_model(ctx, [expr_json(c, r) for r in c.records], "rp")]
-    stats = {}
-    check_case(ctx, c, ms, stats)
-    by_case = {id(c): ms}
-    if rep.get("name") == "corr:json-defaults" and "document" in case:
-        doc2 = json.loads(case["document"])
-        mo = run_model(ctx, ["run_jread %s %s %s" % (G.env_to_coq(c.named), G.schema_to_coq(c.parsed), jv_to_coq(doc2))], "rpd")[0]
-        rd = impl_json_read(c.parsed, json.dumps(doc2))
-        got = "R:" + show_val(rd[1][0]) if rd[0] == "ok" and len(rd[1]) == 1 else "raised %s" % (rd[1],)
-        print("implementation:", got[:500]); print("model         :", by_value(mo or "")[:500])
-        return got == by_value(mo or "")
+    check_case(ctx, c, ms, {})
     for v in ctx.violations:
         print("still:", v["signature"], "|", str(v["impl"])[:300], "|", str(v["model"])[:300])
     return not ctx.violations
